@@ -96,3 +96,54 @@ def stale_reads(sem, effects, cells):
                 if wb in after_load and bb in cfg.reach([wb]) and not cfg.dominates(bb, wb):
                     out.append((vis, bb, lbb, wb, cell))
     return out
+
+
+def lost_updates(sem, effects, cells=None, keyed=False):
+    """Interprocedural read-modify-write discipline for single-value cells (Item / Singleton): a value saved to a cell that was
+    computed from an earlier load of that cell must not have another write to the cell - directly or inside a callee - between the
+    load and the save; the save would write the stale copy back over it (a lost update).
+    `effects` are callgraph.storage_effects of one exploration.  Returns [(save visit, save bb, load fn, load bb, writer visit,
+    writer bb, cell)].  Cells with keys are skipped unless keyed=True (distinct keys do not conflict)."""
+    from .expr import find
+    w = sem.w
+    W = {}
+    for (vis, bb, kind, cell, key, val, e) in effects:
+        if cell is None or (cells is not None and cell not in cells) or kind not in ("write", "update", "remove"):
+            continue
+        if key is not None and not keyed:
+            continue
+        lvl, b = vis, bb
+        W.setdefault((id(lvl), cell), []).append((b, vis, bb))
+        while lvl.parent is not None:
+            lvl, b = lvl.parent
+            W.setdefault((id(lvl), cell), []).append((b, vis, bb))
+    out = []
+    for (vis, bb, kind, cell, key, val, e) in effects:
+        if cell is None or (cells is not None and cell not in cells) or kind != "write" or val is None:
+            continue
+        if key is not None and not keyed:
+            continue
+        v = w.ident(val)
+        loads = find(v, lambda y: y.op == "call" and y.site is not None and
+                     (lambda so: so is not None and so[0] == "read" and so[1] == cell)(sem.storage_op(y)))
+        for ld in loads:
+            # the visit (the saving one or one of its callers) in which the load happened, and where the save sits in it
+            A, sb = vis, bb
+            while A is not None and A.body.path != ld.site[0]:
+                if A.parent is None:
+                    A = None
+                    break
+                A, sb = A.parent
+            if A is None:
+                continue
+            lbb = ld.site[1]
+            cfg = A.be.cfg
+            after_load = cfg.reach([lbb])
+            for (wb, wv, wbb) in W.get((id(A), cell), []):
+                if (wv is vis and wbb == bb) or wb == sb or wb == lbb:
+                    continue
+                if wb in after_load and sb in cfg.reach([wb]) and not cfg.dominates(sb, wb):
+                    rec = (vis, bb, A, lbb, wv, wbb, cell)
+                    if rec not in out:
+                        out.append(rec)
+    return out
